@@ -325,3 +325,74 @@ func (c *Ctx) ruleOneDecoder(rule string) {
 		c.R.Unresolved(rule, "NewDecoder call in the client constructor")
 	}
 }
+
+// R-DECODERX (C05 "never delivered to a different run ID, or corrupted"): the client's one stream decoder is shared by
+// everything that reads from the connection. Two goroutines decoding at the same time tear each other's messages (and
+// race inside the decoder). Every Decode on the client's decoder in the client's methods is an obligation; discharged
+// when it
+//   - sits in the read loop's call tree (one goroutine at a time: the running flag, R-ATOMIC), or
+//   - is executed with a mutex of the client held (the legacy protocol's take-turns lock, inherited from call sites), or
+//   - is the handshake (the function that stores the protocol version; premise: ReadSchema precedes every Execute).
+func (c *Ctx) ruleDecoderExclusive(rule string) {
+	ro := c.roles()
+	if ro == nil || !ro.ok || ro.clientT == nil || ro.readLoop == nil {
+		c.R.Unresolved(rule, "ATP client type / read loop")
+		return
+	}
+	inLoop := c.M.Reachable([]*ssa.Function{ro.readLoop}, nil)
+	storesVersion := func(fn *ssa.Function) bool {
+		for _, b := range fn.Blocks {
+			for _, in := range b.Instrs {
+				if st, ok := in.(*ssa.Store); ok {
+					if fa, ok := st.Addr.(*ssa.FieldAddr); ok && structOf(fa.X.Type()) == ro.clientT {
+						if bt, ok := fieldType(ro.clientT, fieldName(fa.X.Type(), fa.Field)).Underlying().(*types.Basic); ok && bt.Info()&types.IsInteger != 0 {
+							return true
+						}
+					}
+				}
+			}
+		}
+		return false
+	}
+	n := 0
+	for _, fn := range c.M.SortedFuncs(c.scopePkg("atp")) {
+		if !c.methodOrClosureOf(fn, ro.clientT) {
+			continue
+		}
+		cnt := 0
+		for _, b := range fn.Blocks {
+			for _, in := range b.Instrs {
+				call, ok := in.(*ssa.Call)
+				if !ok || !strings.HasSuffix(core.StaticCalleeName(&call.Call), "cbor/v2.Decoder).Decode") {
+					continue
+				}
+				n++
+				cnt++
+				k := key(rule, c.M.Key(fn), sprintf("Decode #%d on the connection's decoder is exclusive", cnt))
+				pos := c.M.InstrPos(call)
+				var held []string
+				for _, l := range c.lockedAt(fn, call) {
+					for _, mname := range allMutexFields(ro.clientT) {
+						if strings.HasSuffix(l, "."+mname) {
+							held = append(held, mname)
+						}
+					}
+				}
+				switch {
+				case inLoop[fn]:
+					c.R.Ok(rule, k, pos, "read from the shared stream decoder", "in the read loop's call tree: one goroutine at a time (running flag)")
+				case len(held) > 0:
+					c.R.Ok(rule, k, pos, "read from the shared stream decoder", "executed with "+strings.Join(held, ", ")+" held")
+				case storesVersion(fn):
+					c.R.Ok(rule, k, pos, "read from the shared stream decoder", "the handshake; premise: ReadSchema precedes every Execute")
+				default:
+					c.R.Bad(rule, k, pos, "the connection's decoder is read without exclusion",
+						"concurrent Execute calls that get here decode from the same stream decoder at the same time: each may consume (part of) the other's reply - a result delivered to the wrong caller, torn messages, a data race inside the decoder")
+				}
+			}
+		}
+	}
+	if n == 0 {
+		c.R.Unresolved(rule, "Decode calls of the ATP client")
+	}
+}
